@@ -27,7 +27,10 @@ EXTENDS Integers, Sequences, FiniteSets, TLC, Json, IOUtils
 CONSTANTS
   CSs,            \* chunk sizes explored
   NPushes,        \* numbers of values pushed before Finalise
-  FinaliseWaits   \* TRUE = repaired
+  FinaliseWaits,  \* TRUE = repaired (C12)
+  Concs,          \* modes explored: TRUE = concurrent (pool seeded with a buffer), FALSE = sequential
+  FaultKinds,     \* subset of {"none", "tempfile", "encode", "sync"}: I/O failures explored (C13)
+  SetErrOnlyIfNonNil  \* TRUE = repaired: a successful Sync does not overwrite an earlier error
 
 MaxOf(S) == CHOOSE x \in S : \A y \in S : y <= x
 K == MaxOf(NPushes) + 1           \* upper bound on background writers
@@ -37,14 +40,32 @@ CallerGates == {"api", "push.spill", "push.gotbuf", "final.enter", "final.scan"}
 WriterGates == {"write.recv", "write.created", "write.registered", "write.encoded",
                 "write.presync", "write.synced", "write.return"}
 
-InitState(cs, n) ==
+\* A fault makes one I/O operation of one writer fail: creating the run file, encoding its
+\* i-th element, or syncing it.  w = -1: no fault.
+NoFault == [w |-> -1, site |-> "none", i |-> 0]
+\* writers that exist in a run of n pushes with chunk size cs, and the length of their run
+BgWriters(cs, n) == IF n = 0 THEN {} ELSE 1..((n - 1) \div cs)
+RunLen(cs, n, w) == IF w = 0 THEN n - cs * ((n - 1) \div cs) ELSE cs
+FaultWriters(cs, n) == BgWriters(cs, n) \cup (IF n >= cs THEN {0} ELSE {})
+FaultsFor(cs, n) ==
+  (IF "none" \in FaultKinds THEN {NoFault} ELSE {})
+  \cup {[w |-> w, site |-> s, i |-> 0] : w \in FaultWriters(cs, n), s \in FaultKinds \cap {"tempfile", "sync"}}
+  \cup UNION {{[w |-> w, site |-> "encode", i |-> i] : i \in {j \in 1..RunLen(cs, n, w) : "encode" \in FaultKinds}} :
+               w \in FaultWriters(cs, n)}
+
+InitState(cs, n, conc, fault) ==
   [cs       |-> cs,                          \* chunk size
    n        |-> n,                           \* values pushed before Finalise
+   conc     |-> conc,
+   fault    |-> fault,
+   err      |-> FALSE,                       \* m._err # nil
+   reported |-> FALSE,                       \* some API call has returned an error
+   tffail   |-> FALSE,                       \* the writer standing at write.created failed to create its file
    cpc      |-> "api",
    pushed   |-> 0,
    chunkLen |-> 0,                           \* -1: m.chunk == nil
    writable |-> <<>>,                        \* channel, capacity 1
-   pool     |-> 1,                           \* channel, capacity 2, seeded with one nil buffer
+   pool     |-> IF conc THEN 1 ELSE 0,       \* channel, capacity 2; concurrent mode seeds one nil buffer
    wpc      |-> [w \in Writers |-> "none"],
    wlen     |-> [w \in Writers |-> 0],
    wenc     |-> [w \in Writers |-> 0],       \* elements of the run already encoded to its file
@@ -71,17 +92,29 @@ GateOf(st, p) == IF p = Caller THEN CallerGate(st) ELSE WriterGate(st, p[2])
 (***************************************************************************)
 (* Release steps.                                                          *)
 (***************************************************************************)
+Faulty(st, w, site, i) == st.fault.w = w /\ st.fault.site = site /\ st.fault.i = i
+
 \* a writer (w = 0: the caller running write() inline) leaves its gate
 ReleaseWriter(st, w) ==
   LET pc == st.wpc[w] IN
   CASE pc = "write.recv"       -> [st EXCEPT !.wpc[w] = "write.created"]       \* sort; TempFile
-    [] pc = "write.created"    -> [st EXCEPT !.wpc[w] = "write.registered",    \* lock; append; unlock
-                                             !.files = Append(@, w)]
-    [] pc = "write.registered" -> [st EXCEPT !.wpc[w] = "write.encoded", !.wenc[w] = 1]
+    [] pc = "write.created"    -> IF Faulty(st, w, "tempfile", 0)
+                                    THEN [st EXCEPT !.wpc[w] = "write.return", !.err = TRUE]  \* setErr(err); return
+                                    ELSE [st EXCEPT !.wpc[w] = "write.registered",    \* lock; append; unlock
+                                                    !.files = Append(@, w)]
+    [] pc = "write.registered" -> IF Faulty(st, w, "encode", 1)
+                                    THEN [st EXCEPT !.wpc[w] = "write.return", !.err = TRUE]
+                                    ELSE [st EXCEPT !.wpc[w] = "write.encoded", !.wenc[w] = 1]
     [] pc = "write.encoded"    -> IF st.wenc[w] < st.wlen[w]
-                                    THEN [st EXCEPT !.wenc[w] = @ + 1]
+                                    THEN IF Faulty(st, w, "encode", st.wenc[w] + 1)
+                                           THEN [st EXCEPT !.wpc[w] = "write.return", !.err = TRUE]
+                                           ELSE [st EXCEPT !.wenc[w] = @ + 1]
                                     ELSE [st EXCEPT !.wpc[w] = "write.presync"]
-    [] pc = "write.presync"    -> [st EXCEPT !.wpc[w] = "write.synced"]        \* Sync; setErr
+    [] pc = "write.presync"    -> \* m.setErr(tf.Sync())
+                                  IF Faulty(st, w, "sync", 0)
+                                    THEN [st EXCEPT !.wpc[w] = "write.synced", !.err = TRUE, !.wenc[w] = 0]
+                                    ELSE [st EXCEPT !.wpc[w] = "write.synced",
+                                                    !.err = IF SetErrOnlyIfNonNil THEN @ ELSE FALSE]
     [] pc = "write.synced"     -> [st EXCEPT !.wpc[w] = "write.return"]        \* return; deferred func
     [] pc = "write.return"     -> [st EXCEPT !.wpc[w] = "poolsend"]
 
@@ -90,16 +123,21 @@ Readable(st) ==
       Sum(fs) == IF fs = <<>> THEN 0 ELSE st.wenc[Head(fs)] + Sum(Tail(fs))
   IN Sum(st.files)
 
+\* an API call returns a non-nil error: the caller stops using the sorter
+Fail(st) == [st EXCEPT !.cpc = "failed", !.reported = TRUE]
+
 ReleaseCaller(st) ==
   LET pc == st.cpc IN
   CASE pc = "api" ->
          IF st.pushed < st.n
-           THEN IF st.chunkLen = st.cs
+           THEN IF st.err THEN Fail(st)                                       \* Push: if err := m.err()
+           ELSE IF st.chunkLen = st.cs
                   THEN [st EXCEPT !.cpc = "push.spill"]
                   ELSE [st EXCEPT !.chunkLen = @ + 1, !.pushed = @ + 1]     \* Push returns
            ELSE [st EXCEPT !.cpc = "final.enter"]
     [] pc = "push.spill"  -> [st EXCEPT !.cpc = "push.send"]
-    [] pc = "push.gotbuf" -> [st EXCEPT !.cpc = "api", !.chunkLen = 1, !.pushed = @ + 1]
+    [] pc = "push.gotbuf" -> IF st.err THEN Fail(st)
+                             ELSE [st EXCEPT !.cpc = "api", !.chunkLen = 1, !.pushed = @ + 1]
     [] pc = "final.enter" -> [st EXCEPT !.cpc = "final.wait"]
     [] pc = "final.scan"  ->
          \* Seek + Decode the head of every registered run.  In-memory path: the chunk itself.
@@ -128,7 +166,8 @@ InternalSteps(st) ==
   \cup
   \* Finalise: m.writers.Wait(), then the choice of path
   (IF st.cpc = "final.wait" /\ (FinaliseWaits => st.wg = 0)
-     THEN {IF st.pushed < st.cs
+     THEN {IF st.err THEN Fail(st)                                  \* Finalise: if err := m.err()
+           ELSE IF st.pushed < st.cs
              THEN [st EXCEPT !.cpc = "final.scan", !.fast = TRUE]      \* in-memory sort
              ELSE IF st.chunkLen > 0
                THEN [st EXCEPT !.cpc = "final.send"]
@@ -147,7 +186,8 @@ InternalSteps(st) ==
   \cup
   \* write(), deferred: m.pool <- writing[:0] ; m.writers.Done()
   {[st EXCEPT !.wpc[w] = "done", !.pool = @ + 1, !.wg = @ - 1,
-              !.cpc = IF w = 0 THEN "final.scan" ELSE @] :
+              !.cpc = IF w = 0 THEN (IF st.err THEN "failed" ELSE "final.scan") ELSE @,
+              !.reported = IF w = 0 /\ st.err THEN TRUE ELSE @] :
      w \in {x \in Writers : st.wpc[x] = "poolsend" /\ st.pool < 2}}
 
 \* run internal steps until none is possible (they commute; any order gives the same state)
@@ -161,12 +201,14 @@ VARIABLES st, last
 
 vars == <<st, last>>
 
-Init == (\E cs \in CSs, n \in NPushes : st = InitState(cs, n)) /\ last = <<"init">>
+Init ==
+  /\ \E cs \in CSs, n \in NPushes, c \in Concs : \E f \in FaultsFor(cs, n) : st = InitState(cs, n, c, f)
+  /\ last = <<"init">>
 
 Rel(p) == CanRelease(st, p) /\ st' = Released(st, p) /\ last' = <<"release", p, GateOf(st, p)>>
 IntStep == \E t \in InternalSteps(st) : st' = t /\ last' = <<"internal">>
 
-Terminated(s) == s.cpc = "pulling" /\ \A w \in Writers : s.wpc[w] \in {"none", "done"}
+Terminated(s) == s.cpc \in {"pulling", "failed"} /\ \A w \in Writers : s.wpc[w] \in {"none", "done"}
 
 Next == (\E p \in Procs : Rel(p)) \/ IntStep \/ (Terminated(st) /\ UNCHANGED vars)
 
@@ -194,6 +236,10 @@ RaceFree ==
 NoTornRun ==
   st.cpc = "pulling" => \A i \in 1..Len(st.files) : st.wenc[st.files[i]] = st.wlen[st.files[i]]
 
-\* every execution ends with the caller pulling and all writers gone
+\* C13: an I/O failure is never hidden: if every Push and Finalise reported success, the
+\* runs Finalise found hold every value pushed
+NoSilentLoss == (st.cpc = "pulling" /\ ~st.reported) => st.delivered = st.n
+
+\* every execution ends with the caller pulling (or told about the failure) and all writers gone
 Termination == <>[](Terminated(st))
 =============================================================================
